@@ -60,7 +60,8 @@ Record task := {
   t_acc_at : option nat;         (* history: step of the successful runPrelude *)
   t_begin_at : option nat;       (* history: f began *)
   t_end_at : option nat;         (* history: f returned *)
-  t_post_at : option nat         (* history: runPostlude *)
+  t_post_at : option nat;        (* history: runPostlude *)
+  t_panicked : bool              (* history: f panicked (the deferred calls ran during unwinding) *)
 }.
 
 Inductive wpc := WBody | WBodyDone | WDone.
@@ -272,14 +273,15 @@ Definition sem_dec (s : st) (k : nat) : option (list (nat * nat)) :=
 
 Definition with_pc (t : task) (p : tpc) : task :=
   {| tk := tk t; pc := p; t_ret := t_ret t; t_acc_at := t_acc_at t; t_begin_at := t_begin_at t;
-     t_end_at := t_end_at t; t_post_at := t_post_at t |}.
+     t_end_at := t_end_at t; t_post_at := t_post_at t; t_panicked := t_panicked t |}.
 Definition refuse (t : task) (r : ret) : task :=
   {| tk := tk t; pc := TRefused; t_ret := Some r; t_acc_at := t_acc_at t; t_begin_at := t_begin_at t;
-     t_end_at := t_end_at t; t_post_at := t_post_at t |}.
+     t_end_at := t_end_at t; t_post_at := t_post_at t; t_panicked := t_panicked t |}.
 
 Definition new_task (k : tkind) : task :=
   {| tk := k; pc := if is_limited k then TSem0 else TPre; t_ret := None;
-     t_acc_at := None; t_begin_at := None; t_end_at := None; t_post_at := None |}.
+     t_acc_at := None; t_begin_at := None; t_end_at := None; t_post_at := None;
+     t_panicked := false |}.
 
 (** runPostlude's Broadcast: every goroutine in Wait() is woken. *)
 Definition wake (th : sthread) : sthread :=
@@ -312,11 +314,12 @@ Inductive label :=
 | LSemRelRefused (i : nat)    (* <-sem after runPrelude said no *)
 | LBodyBegin (i : nat)        (* f(ctx) begins *)
 | LBodyEnd (i : nat)          (* f(ctx) returns *)
+| LBodyPanic (i : nat)        (* f(ctx) panics: the deferred calls run while the stack unwinds *)
 | LSemRelease (i : nat)       (* deferred <-sem *)
 | LPostlude (i : nat)         (* runPostlude *)
 (* RunWorker *)
 | LWorkerStart                (* stop.Add(1); go ... *)
-| LWorkerBodyEnd (w : nat)
+| LWorkerBodyEnd (w : nat)    (* the worker's f returns or panics: stop.Done() is deferred either way *)
 | LWorkerDone (w : nat)       (* stop.Done() *)
 (* AddCloser, WithCancelOn* *)
 | LAddCloser
@@ -358,6 +361,22 @@ Definition quiesce_finish (s : st) (j : nat) (is_stop : bool) : st :=
 (** Test of [for s.mu.numTasks > 0 { Wait() }]. *)
 Definition quiesce_test (s : st) (j : nat) (is_stop : bool) : st :=
   if (0 <? num_tasks s)%Z then put_thread s j is_stop SQWait else quiesce_finish s j is_stop.
+
+(** f returns, or f panics.  In both cases control reaches the deferred
+    calls of the goroutine, in the same order: [<-sem] (limited), runPostlude,
+    s.Recover.  (With an OnPanic handler Recover calls it and the goroutine --
+    for RunTask: the call, with a nil error -- ends normally; the handler
+    touches no Stopper state and is not modelled.  Without a handler the
+    panic is re-raised and the process dies: outside the model.) *)
+Definition end_body (s : st) (i : nat) (t : task) (panicked : bool) : res :=
+  match pc t with
+  | TBody =>
+      Next (put_task s i {| tk := tk t; pc := if is_limited (tk t) then TBodyDone else TPost;
+                            t_ret := t_ret t; t_acc_at := t_acc_at t;
+                            t_begin_at := t_begin_at t; t_end_at := Some (clock s);
+                            t_post_at := None; t_panicked := panicked |})
+  | _ => NotEnabled
+  end.
 
 Definition step0 (s : st) (l : label) : res :=
   match l with
@@ -428,7 +447,7 @@ Definition step0 (s : st) (l : label) : res :=
                       {| tk := tk t; pc := TAccepted;
                          t_ret := if is_sync (tk t) then None else Some RNil;
                          t_acc_at := Some (clock s); t_begin_at := None; t_end_at := None;
-                         t_post_at := None |})
+                         t_post_at := None; t_panicked := false |})
         | _ => NotEnabled
         end)
   | LSemRelRefused i =>
@@ -446,19 +465,12 @@ Definition step0 (s : st) (l : label) : res :=
         match pc t with
         | TAccepted =>
             Next (put_task s i {| tk := tk t; pc := TBody; t_ret := t_ret t; t_acc_at := t_acc_at t;
-                                  t_begin_at := Some (clock s); t_end_at := None; t_post_at := None |})
+                                  t_begin_at := Some (clock s); t_end_at := None; t_post_at := None;
+                                  t_panicked := false |})
         | _ => NotEnabled
         end)
-  | LBodyEnd i =>
-      with_task s i (fun t =>
-        match pc t with
-        | TBody =>
-            Next (put_task s i {| tk := tk t; pc := if is_limited (tk t) then TBodyDone else TPost;
-                                  t_ret := t_ret t; t_acc_at := t_acc_at t;
-                                  t_begin_at := t_begin_at t; t_end_at := Some (clock s);
-                                  t_post_at := None |})
-        | _ => NotEnabled
-        end)
+  | LBodyEnd i => with_task s i (fun t => end_body s i t false)
+  | LBodyPanic i => with_task s i (fun t => end_body s i t true)
   | LSemRelease i =>
       with_task s i (fun t =>
         match pc t, sem_of (tk t) with
@@ -479,7 +491,8 @@ Definition step0 (s : st) (l : label) : res :=
               let s2 := set_sthreads s1 (map wake (sthreads s1)) in
               Next (put_task s2 i {| tk := tk t; pc := TDone; t_ret := Some RNil;
                                      t_acc_at := t_acc_at t; t_begin_at := t_begin_at t;
-                                     t_end_at := t_end_at t; t_post_at := Some (clock s) |})
+                                     t_end_at := t_end_at t; t_post_at := Some (clock s);
+                                     t_panicked := t_panicked t |})
         | _ => NotEnabled
         end)
   | LWorkerStart =>
